@@ -406,12 +406,11 @@ func c18Scenarios(thorough bool) []c18Scenario {
 				out = append(out, c18Scenario{[][]c18Op{seqs[i], seqs[j]}, init})
 			}
 		}
-		if thorough {
-			for i := 0; i < n1; i++ {
-				for j := i; j < n1; j++ {
-					for k := j; k < n1; k++ {
-						out = append(out, c18Scenario{[][]c18Op{seqs[i], seqs[j], seqs[k]}, init})
-					}
+		// three threads with one operation each (quick: bounded preemptions like everything else)
+		for i := 0; i < n1; i++ {
+			for j := i; j < n1; j++ {
+				for k := j; k < n1; k++ {
+					out = append(out, c18Scenario{[][]c18Op{seqs[i], seqs[j], seqs[k]}, init})
 				}
 			}
 		}
